@@ -35,8 +35,23 @@ fn max_np(variant: &str, t: &Value) -> u64 {
     }
 }
 
+/// the cost model handed to the analyses: a cumulative-cost curve where the task has one and the
+/// variant's API accepts general request bounds (fully preemptive, floating NP, FIFO), else the scalar WCET
+fn cost_of(t: &Value, variant: &str) -> Value {
+    let w = us(&t["w"]);
+    if !w.is_empty() && matches!(variant, "p" | "fnp") {
+        if u(&t["C"]) % 2 == 0 {
+            json!({"k": "wcurve", "w": w})
+        } else {
+            json!({"k": "wxcurve", "of": {"k": "wcurve", "w": w}})
+        }
+    } else {
+        json!({"k": "scalar", "c": t["C"]})
+    }
+}
+
 fn task_inp(t: &Value, variant: &str) -> Value {
-    json!({"a": t["a"], "c": {"k": "scalar", "c": t["C"]}, "C": t["C"], "D": t["D"],
+    json!({"a": t["a"], "c": cost_of(t, variant), "C": t["C"], "D": t["D"],
            "seg": max_np(variant, t), "last": us(&t["segs"]).last().copied().unwrap()})
 }
 
@@ -50,7 +65,7 @@ fn emit_system(ctx: &mut Ctx, id: u64, tasks: &[Value], family: &str, variant: &
     if family == "es" {
         // event sources = a FIFO server under a reservation (C04): claim from rta_event_source
         supply = crate::drivers::ros2::gen_supply(&mut ctx.rng, if ctx.thorough { 6 } else { 4 });
-        let parts: Vec<Value> = tasks.iter().map(|t| json!({"k": "rbf", "a": t["a"], "c": {"k": "scalar", "c": t["C"]}})).collect();
+        let parts: Vec<Value> = tasks.iter().map(|t| json!({"k": "rbf", "a": t["a"], "c": cost_of(t, "p")})).collect();
         let own = match crate::drivers::ros2::demand_rec(&json!({"k": "agg", "of": parts}), 2 * lim + 4, ctx.watchdog_ms) {
             Some(o) => o,
             None => return,
@@ -113,13 +128,15 @@ fn emit_system(ctx: &mut Ctx, id: u64, tasks: &[Value], family: &str, variant: &
         } else {
             1
         };
+        let w: Vec<u64> = if matches!(variant, "p" | "fnp") { us(&t["w"]) } else { vec![] };
         ts.push(json!({"arr": arr_of(&t["a"]), "C": c, "segs": segs, "fl": fl, "prio": t["prio"], "D": t["D"],
-                       "R": claims[i], "cap": cap}));
+                       "R": claims[i], "cap": cap, "w": w}));
     }
     // keep individual state spaces tractable (stated in the evidence): bounded pending-job backlog
     let (rmax, backlog, budget) = if ctx.thorough { (45, 7, 6.0e6) } else { (22, 5, 1.5e6) };
     let total_cap: u64 = ts.iter().map(|t| u(&t["cap"]) - 1).sum();
-    let est = crate::drivers::ros2sys::state_estimate(&ts, &supply) * (ts.iter().map(|t| u(&t["C"])).sum::<u64>() as f64);
+    let hist_states: f64 = ts.iter().map(|t| (u(&t["C"]) as f64).powf(us(&t["w"]).len().saturating_sub(1) as f64)).product();
+    let est = crate::drivers::ros2sys::state_estimate(&ts, &supply) * (ts.iter().map(|t| u(&t["C"])).sum::<u64>() as f64) * hist_states;
     if claims.iter().any(|r| *r > rmax) || total_cap > backlog || est > budget {
         return;
     }
@@ -190,8 +207,8 @@ pub fn run(ctx: &mut Ctx) {
                 for t2 in [3u64, 4] {
                     for c2 in 1..=2u64 {
                         core.push(vec![
-                            json!({"a": {"k": "sporadic", "T": t1, "J": j1}, "C": c1, "prio": 1, "D": t1 + 1, "segs": [c1], "fl": c1}),
-                            json!({"a": {"k": "sporadic", "T": t2, "J": 1}, "C": c2, "prio": 2, "D": t2, "segs": segs_of(&mut ctx.rng, c2), "fl": 1}),
+                            json!({"a": {"k": "sporadic", "T": t1, "J": j1}, "C": c1, "prio": 1, "D": t1 + 1, "segs": [c1], "fl": c1, "w": []}),
+                            json!({"a": {"k": "sporadic", "T": t2, "J": 1}, "C": c2, "prio": 2, "D": t2, "segs": segs_of(&mut ctx.rng, c2), "fl": 1, "w": []}),
                         ]);
                     }
                 }
@@ -204,11 +221,21 @@ pub fn run(ctx: &mut Ctx) {
         let mut tasks = vec![];
         for _ in 0..n {
             let a = gen_arrival_small(&mut ctx.rng, tmax, exact_only);
-            let c = ctx.rng.gen_range(1..=cmax);
+            // a third of the tasks (outside the tightness runs) have a cumulative-cost curve instead of a scalar WCET:
+            // any n consecutive jobs cost at most w[n]; the single-job WCET is w[1]
+            let w: Vec<u64> = if !exact_only && ctx.rng.gen_bool(0.33) {
+                // short prefixes only: the cost automaton remembers Len(w) - 1 job costs per task
+                let mut w = crate::gen::cost_prefix(&mut ctx.rng, cmax);
+                w.truncate(3);
+                w
+            } else {
+                vec![]
+            };
+            let c = if w.is_empty() { ctx.rng.gen_range(1..=cmax) } else { w[0] };
             let segs = segs_of(&mut ctx.rng, c);
             let tt = crate::gen::span(&a).max(2);
             tasks.push(json!({"a": a, "C": c, "prio": ctx.rng.gen_range(1..=n as u64), "D": ctx.rng.gen_range(1..=2 * tt + 2),
-                              "segs": segs, "fl": ctx.rng.gen_range(1..=c)}));
+                              "segs": segs, "fl": ctx.rng.gen_range(1..=c), "w": w}));
         }
         sets.push(tasks);
     }
